@@ -143,6 +143,7 @@ class Trace:
     ops: list[tuple] = field(default_factory=list)  # operation_outputs at the end
     inserts: list[tuple] = field(default_factory=list)  # (seq_num, key, ticks reduced so far, stream length so far)
     final_stream: list[str] = field(default_factory=list)
+    final_wf_stream: list[str] = field(default_factory=list)  # only the events published by the control loop (memoised writes)
     journal_now: list = field(default_factory=list)  # (seq_num, key) rows so far (initial rows + INSERTs seen)
 
 
@@ -159,7 +160,7 @@ def _take_snapshot(kind: str, **info: Any) -> None:
     if tr is None or db is None or _Obs.snap_filter is None:
         return
     meta = {"kind": kind, "index": len(tr.snapshots), "ticks": len(tr.ticks), "journal": _journal_rows(db.db_path),
-            "stream": len(db.streams.get((RUN_ID, "published_events"), [])), "writes": db.writes, "waits": len(tr.waits),
+            "stream": len([o for o in db.stream_origin.get((RUN_ID, "published_events"), []) if o == "wf"]), "writes": db.writes, "waits": len(tr.waits),
             # a step body that already performed a non-memoised effect is still executing: on recovery it is
             # re-executed (steps are at-least-once) and the effect happens twice
             "dirty": bool(_Obs.effect_fids & set(RT._get_dbos_instance().inflight_steps)), **info}
@@ -309,6 +310,8 @@ def _observe_db(proc: _Proc, db: SysDB, snap_filter: Any) -> None:
         if kind == "op_output" and info.get("stream") == "published_events":
             items = db.streams.get((RUN_ID, "published_events"), [])
             proc.trace.stream.append(canon_event(items[-1]))
+        if kind == "stream" and info.get("step_fid") is not None:
+            _Obs.effect_fids.add(info["step_fid"])  # a step body wrote to the stream directly (not memoised)
         _take_snapshot(kind, **{k: v for k, v in info.items() if k in ("fid", "name", "status")})
 
     db.observers.append(ob)
@@ -336,7 +339,10 @@ def _collect(proc: "_Proc") -> None:
         return
     tr.journal_rows = _journal_rows(db.db_path)
     tr.ops = db.recorded_fids(RUN_ID)
-    tr.final_stream = [canon_event(e) for e in db.streams.get((RUN_ID, "published_events"), [])]
+    items = db.streams.get((RUN_ID, "published_events"), [])
+    origin = db.stream_origin.get((RUN_ID, "published_events"), [])
+    tr.final_stream = [canon_event(e) for e in items]
+    tr.final_wf_stream = [canon_event(e) for e, o in zip(items, origin) if o == "wf"]
     try:
         conn = sqlite3.connect(db.db_path)
         try:
@@ -413,7 +419,8 @@ def recover_run(spec: dict, snapshot: dict, seed: int, *, replay_actions: list[i
         async def body(loop: VLoop) -> None:
             db = SysDB.from_snapshot(snapshot["state"], os.path.join(workdir, "sys.db"))
             _observe_db(proc, db, snap_filter)
-            proc.trace.stream = [canon_event(e) for e in db.streams.get((RUN_ID, "published_events"), [])]
+            proc.trace.stream = [canon_event(e) for e, o in zip(db.streams.get((RUN_ID, "published_events"), []),
+                                                                db.stream_origin.get((RUN_ID, "published_events"), [])) if o == "wf"]
             DBOS(config={"name": "c27", "_standin_sysdb": db})
             rt = RT.DBOSRuntime()
             with rt.registering():
